@@ -121,7 +121,14 @@ def run_model_and_steps(chk, prop, tier, pkey=None):
             chk.add_tlc(res, "YkConc2 config %s: root border split + new interior root vs 2 readers (LinOK, Quiescent, Termination under WF)" % cfg)
             if not res.ok:
                 chk.error("YkConc2 model check %s did not pass (says nothing about the code): %s" % (cfg, tlc_tail(res, 12)))
+        # border deletion + collapse of the interior root racing with readers, an insert, another remover (YkConc3): all interleavings
+        for cfg in (["a", "c", "d", "e"] if tier == "quick" else ["a", "b", "c", "d", "e", "f", "g"]):
+            res = tlc("MC_Conc3", "MC_Conc3_%s.cfg" % cfg, workers=8, timeout=900)
+            chk.add_tlc(res, "YkConc3 config %s: border deletion, prev/next unlink, interior root collapse vs 2 other threads (LinOK, CollapseOK, LockOK, Quiescent, Termination under WF)" % cfg)
+            if not res.ok:
+                chk.error("YkConc3 model check %s did not pass (says nothing about the code): %s" % (cfg, tlc_tail(res, 12)))
         run_steps2(chk, prop, tier, pk)
+        run_steps3(chk, prop, tier, pk)
     exe = build("stepdrv", ["stepdrv.cpp"], sessions=16)
     init = {"A": "{1, 2}", "B": "{1, 2}", "C": "{1, 2}", "D": "{1}"}
     nruns = 40 if tier == "quick" else 400
@@ -203,6 +210,61 @@ def run_steps2(chk, prop, tier, pk):
             chk.cov["divergences"] = chk.cov.get("divergences", 0) + 1
             log("DIVERGENCE property=%s at=step-level split insert %d event %d: %s (the code's access sequence differs from YkConc2; not a violation)" % (
                 prop, nk, at, lines[at - 1][:200] if 0 < at <= len(lines) else ""))
+
+
+STEP3 = [("rem:18,get:18,get:2", "2,4", "18"), ("rem:18,rem:2,get:2", "2", "18"), ("rem:2,get:18,put:1", "2", "18,20"), ("rem:18,put:20,get:20", "2,4", "18"),
+         ("rem:18,rem:2,put:5", "2", "18"), ("rem:18,put:4,rem:2", "2,4", "18"), ("rem:18,rem:18,put:18", "2,4", "18")]
+
+
+def run_steps3(chk, prop, tier, pk):
+    """S: border deletion + interior root collapse of YkConc3 on the real code (fan-out 15) under random and PCT schedules; every logged
+    access must be the enabled model step with the same value (TraceConc3); LinOK, CollapseOK, LockOK and Quiescent are evaluated on
+    every state of the accepted executions."""
+    import os, re
+    from common import tlc, tlc_tail, build, run, BUILD
+    from tracecheck import write_cfg
+    exe = build("stepdrv3", ["stepdrv3.cpp"], sessions=16)
+    nruns = 15 if tier == "quick" else 150
+    for pi, (prog, il, ir) in enumerate(STEP3[:4] if tier == "quick" else STEP3):
+        out = ""
+        bad = False
+        for sched in ("random", "pct"):
+            rc, o, err = run([exe, "prog=" + prog, "initL=" + il, "initR=" + ir, "runs=%d" % nruns, "seed=%d" % seed(), "sched=" + sched], timeout=300)
+            lines = o.splitlines()
+            if lines and '"op":"fault"' in lines[-1]:
+                chk.violation("fault", "implementation faulted in step-level collapse run %s: %s" % (prog, lines[-1]), chk.save_replay("fault_step3_%d.ndjson" % pi, "\n".join(lines[-30:])))
+                bad = True
+                break
+            if rc != 0 or any('"e":"abort"' in x for x in lines[-2:]):
+                if prop == "C09" and any('"e":"abort"' in x for x in lines[-2:]):
+                    chk.violation("deadlock", "step-level collapse run %s did not complete: %s" % (prog, lines[-1][:300]), chk.save_replay("abort_step3_%d.ndjson" % pi, "\n".join(lines[-200:])))
+                else:
+                    chk.notes.append("stepdrv3 %s did not complete: %s" % (prog, (lines[-1] if lines else err)[:200]))
+                bad = True
+                break
+            out += o if not out else "\n".join(lines[1:]) + "\n"     # one meta line per file
+        if bad:
+            continue
+        lines = out.splitlines()
+        tr = os.path.join(BUILD, "traces", "step3_%s_%d.ndjson" % (pk, pi))
+        open(tr, "w").write(out)
+        cfg = write_cfg(os.path.join(BUILD, "cfg", "tc3_%s_%d.cfg" % (pk, pi)), constants={"F": 15, "Keys": "{1, 2, 4, 5, 18, 20}", "Threads": "{0, 1, 2}", "Prog": "<- ProgT",
+                        "InitL": "<- InitLT", "InitR": "<- InitRT", "NO_DEL_FLAG": "FALSE", "NO_P_DEL": "FALSE", "LEAK_PREV_LOCK": "FALSE", "STALE_LINKS": "FALSE"},
+                        invariants=["LinOK", "CollapseOK", "LockOK", "Quiescent"], constraint="Record")
+        res = tlc("TraceConc3", cfg, env={"TRACE": tr}, workers=1, timeout=600, deque=True)
+        chk.add_tlc(res, "step-level conformance of border deletion / root collapse, programs %s on L={%s} R={%s} (%d runs, %d events)" % (prog, il, ir, 2 * nruns, len(lines)))
+        if res.ok:
+            chk.traces += 2 * nruns
+            chk.cov["step_events_conforming"] = chk.cov.get("step_events_conforming", 0) + len(lines)
+        elif res.violated in ("LinOK", "CollapseOK", "LockOK", "Quiescent"):
+            rp = chk.save_replay("step3_%d_%s.txt" % (pi, res.violated), tlc_tail(res, 60))
+            chk.violation("step-trace-" + res.violated, "%s violated on a real execution of border deletion / root collapse (%s) followed step by step in YkConc3" % (res.violated, prog), rp)
+        else:
+            m = re.search(r'<<"STUCK", (\d+)', res.out)
+            at = int(m.group(1)) if m else 0
+            chk.cov["divergences"] = chk.cov.get("divergences", 0) + 1
+            log("DIVERGENCE property=%s at=step-level collapse %s event %d: %s (the code's access sequence differs from YkConc3; not a violation)" % (
+                prop, prog, at, lines[at - 1][:200] if 0 < at <= len(lines) else ""))
 
 
 def main(prop, tier):
